@@ -32,7 +32,8 @@ RULE = ("(sync) seeded random sync-only documents over the LA metamodel slice: 1
         "list, nesting depth <= 3, find keys on `name` drawn from strings with arbitrary characters (XML specials, "
         "quotes, whitespace runs, newlines, non-BMP, YAML-special words), optional `_type` hints, a second find key, "
         "`set` with strings and with forward/backward promises, promise ids, entries that match base objects, two "
-        "entries of one list selecting the same absent object, find keys on nested attributes (`parent.name`, "
+        "entries of one list selecting the same absent object (also: one of the twins carrying a forward/backward promise "
+        "in `set`, in every order with the declaring entry, in one or several instructions), find keys on nested attributes (`parent.name`, "
         "`type.name`, …) selecting objects of the populated models; "
         "excluded-point flavours (set overrides a find key, non-discriminating finds, extend inside sync, HTML-normalised "
         "find values) are run and reported separately. Each document is applied twice to empty_project_52 / melody 5_2 / "
@@ -185,6 +186,64 @@ def gen_sync_doc(rng, base: L.Base, flavour: str):
     return doc
 
 
+def gen_twinp_doc(rng, base: L.Base):
+    """the same (not yet existing) object mentioned by two sync entries, one of which carries a `!promise` in its
+    `set` (declared by a third entry): every order of the three entries (promise forward / backward, twin before /
+    after), in one list of one instruction or spread over up to three instructions, nested `sync` present / absent
+    on either twin, on top level (`classes`) or one level down (`owned_properties` of a synced class)"""
+    nid = itertools.count(10000)
+    dp = base.root_id("dp")
+
+    def nm(prefix):
+        return f"{prefix}{rng.choice(['', ' x', '&', ' <1>'])}{next(nid)}"
+
+    def entry(name, **kw):
+        i = next(nid)
+        return {"nid": i, "nid2": i + 5000, "keys": [["name", {"s": name}]], **kw}
+
+    deep = rng.random() < 0.3
+    pname, oname = nm("Base"), nm("Obj")
+    pid = f"p{next(nid)}"
+    provider = entry(pname, pid=pid)
+    if rng.random() < 0.3:
+        provider["ty"] = "Class"
+    refattr = "type" if deep else "super"
+    a = entry(oname, set=[[refattr, {"v": {"p": pid}}]])
+    b = entry(oname)
+    if not deep:
+        if rng.random() < 0.5:
+            a["set"].append(["description", {"v": {"s": "reads a value"}}])
+        for e in (a, b):
+            if rng.random() < 0.45:
+                e["sync"] = [["owned_properties", [entry(nm("prop")) for _ in range(rng.randint(1, 2))]]]
+        if rng.random() < 0.3:
+            b.setdefault("set", []).append(["description", {"v": {"s": "reads a value"}}])
+    if rng.random() < 0.4:
+        b["pid"] = f"p{next(nid)}"
+    if rng.random() < 0.2:
+        a["fb"] = True
+    twins = [a, b]
+    # half of the documents in the order "promise carrier, its twin, the declaring entry" (the carrier waits while the
+    # twin creates the object), the rest in a random order
+    critical = rng.random() < 0.5
+    if not critical:
+        rng.shuffle(twins)
+    if deep:
+        host = entry(nm("Host"), sync=[["owned_properties", twins]])
+        seq = [host, provider]
+    else:
+        seq = twins + [provider]
+    if not critical:
+        rng.shuffle(seq)
+    # cut the sequence into 1-3 consecutive chunks, one instruction each (same parent, same list)
+    cuts = sorted(rng.sample(range(1, len(seq)), rng.randint(0, len(seq) - 1)))
+    doc, prev = [], 0
+    for c in cuts + [len(seq)]:
+        doc.append({"parent": {"u": dp}, "sync": [["classes", seq[prev:c]]]})
+        prev = c
+    return doc
+
+
 def gen_dotted_doc(rng, base: L.Base):
     """find keys on nested attributes (`parent.name`, `<reference>.name`) selecting objects of the base model:
     every entry must match, nothing may be created"""
@@ -271,7 +330,7 @@ def run_sync(ctx, out, bases, req, pending):
     flav_count: dict[str, int] = {}
     excluded: dict[str, dict] = {}
     n = pick(ctx, 170, 1500)
-    FL = (["plain"] * 4 + ["promise"] * 3 + ["base"] * 2 + ["twin"] * 2 + ["dotted"] * 2 +
+    FL = (["plain"] * 4 + ["promise"] * 3 + ["base"] * 2 + ["twin"] * 2 + ["dotted"] * 2 + ["twin-promise"] * 3 +
           ["promise-nested", "override", "ambiguous", "extend", "html-key"])
     for k in range(n):
         flavour = FL[k % len(FL)] if k < 2 * len(FL) else rng.choice(FL)
@@ -279,7 +338,8 @@ def run_sync(ctx, out, bases, req, pending):
         if flavour == "dotted":  # needs objects to select: the populated models
             key = rng.choice([b for b in bases if b.startswith("melody")])
         base = bases[key]
-        doc = gen_dotted_doc(rng, base) if flavour == "dotted" else gen_sync_doc(rng, base, flavour)
+        doc = (gen_dotted_doc(rng, base) if flavour == "dotted" else gen_twinp_doc(rng, base) if flavour == "twin-promise"
+               else gen_sync_doc(rng, base, flavour))
         if not doc:
             continue
         flav_count[flavour] = flav_count.get(flavour, 0) + 1
@@ -323,7 +383,7 @@ def apply_twice(base, doc):
 
 def judge_sync(out, base, doc, flavour, res, excluded):
     """the monitor: second application leaves the model exactly as the first left it"""
-    in_claim = flavour in ("plain", "promise", "promise-nested", "base", "twin", "dotted")
+    in_claim = flavour in ("plain", "promise", "promise-nested", "base", "twin", "dotted", "twin-promise")
     if res["first"][0] != "ok" and res["first"][1].get("error") != "diverge" and in_claim:
         out.find(f"sync-first|raises:{res['first'][1]['error']}|{flavour}",
                  f"{base.key}: first application of a valid {flavour} sync document raises {res['first'][1]}",
@@ -408,6 +468,20 @@ def gen_value(rng, depth, decl, NewObject):
     return NewObject(rng.choice(["Class", "LogicalFunction", "T y"]), **d)
 
 
+VERSIONS = ["1.0", "0.6.1.dev1", "99!1", "1.2.3+abc", "0.6.9.dev12+g1a2b3c4", "0.6.9.dev12+g1a2b3c4.d20260929",
+            "1!2.0.post3+local.build.7", "2.0rc1", "1.0.post2.dev3", "0.7.3a2", "1.0+", "+x", "1.0 +sp", "v1+1"]
+
+
+def guarded(out, sig, case, fn, *a, **kw):
+    """call into the implementation; an exception on an input the harness built is a finding with a replay,
+    never a crash of the harness. Returns (True, value) | (False, None)"""
+    try:
+        return True, fn(*a, **kw)
+    except Exception as e:  # noqa: BLE001
+        out.find(f"{sig}|raises:{type(e).__name__}", f"{fn.__name__} raises {type(e).__name__}: {str(e)[:160]}", case)
+        return False, None
+
+
 def gen_stream(rng, decl, NewObject):
     n = rng.randint(0, 4)
     instrs = []
@@ -423,7 +497,7 @@ def gen_stream(rng, decl, NewObject):
     elif r < 0.45:
         meta = {}
     elif r < 0.8:
-        meta = {"written_by": {"capellambse": rng.choice(["1.0", "0.6.1.dev1", "99!1"])},
+        meta = {"written_by": {"capellambse": rng.choice(VERSIONS)},
                 "model": {"url": rng.choice(["git+https://x/y.git", "/tmp/a b", "é"]), "entrypoint": "m.aird"}}
         if rng.random() < 0.5:
             meta["written_by"]["generator"] = rng.choice(NAMES)
@@ -571,7 +645,12 @@ def run_yaml(ctx, out, yreq, ypending):
             out.find(f"dump-load|not-equal:{cls}|{where}",
                      f"decl.load(io.StringIO(decl.dump(x))) != x for a stream with markers {marks} ({cls})", case)
         # codec correspondence: the node graph of the dumped text vs. the model's represent
-        docs = [canon_node(node_json(n)) for n in yaml.compose_all(text, Loader=decl.YDMLoader)]
+        try:
+            docs = [canon_node(node_json(n)) for n in yaml.compose_all(text, Loader=decl.YDMLoader)]
+        except Exception as e:  # noqa: BLE001
+            out.find(f"dump-load|unparsable-output:{type(e).__name__}|{'+'.join(marks) or 'plain'}",
+                     f"the text decl.dump wrote cannot be composed: {str(e)[:120]}", case)
+            continue
         yreq.append({"op": "yaml.dump", "instrs": case["instrs"], "meta": case["meta"] or []})
         ypending.append(("yaml.represent", case, docs))
         yreq.append({"op": "yaml.load", "docs": [node_json(n) for n in yaml.compose_all(text, Loader=decl.YDMLoader)]})
@@ -581,7 +660,11 @@ def run_yaml(ctx, out, yreq, ypending):
     texts = list(BAD_TEXTS)
     for _ in range(pick(ctx, 60, 600)):
         instrs, meta = gen_stream(rng, decl, NewObject)
-        t = decl.dump(instrs, metadata=meta)
+        ok, t = guarded(out, "dump-load|dump", {"kind": "yaml", "instrs": to_dval(instrs, decl, NewObject)["l"],
+                                                "meta": None if meta is None else to_dval(meta, decl, NewObject)["m"]},
+                        decl.dump, instrs, metadata=meta)
+        if not ok:
+            continue
         r = rng.random()
         if r < 0.3:
             t = t.replace("!promise", "!uuid", 1)
@@ -628,7 +711,10 @@ def run_meta(ctx, out, yreq, ypending):
             strs.add("".join(toks))
     strs |= {"1.0\n", " 1.0", "1.0 ", "１.0", "1.0.post1.dev2", "2!1.2.3rc4.post5.dev6", "1..0", "1.0a", "1.0rc01", "00", "1.0.dev", "v1"}
     for s in sorted(strs):
-        iv = bool(decl._is_pep440(s))
+        ok, iv = guarded(out, "pep440|_is_pep440", {"kind": "pep440", "s": s}, decl._is_pep440, s)
+        if not ok:
+            continue
+        iv = bool(iv)
         out.case(("pep440", s), None, len(s) > 1)
         out.hit(f"pep440:{iv}")
         yreq.append({"op": "pep440", "s": s})
@@ -670,6 +756,10 @@ def run_meta(ctx, out, yreq, ypending):
                     "malformedVersion" if "Malformed version" in msg else "tooOld" if "too old" in msg else
                     "cannotVerify" if "Cannot verify required" in msg else "url" if "URL mismatch" in msg else
                     "revision" if "version mismatch" in msg else "entrypoint" if "entrypoint mismatch" in msg else "other:" + msg[:40])
+        except Exception as e:  # noqa: BLE001
+            out.find(f"verify|_verify_metadata|raises:{type(e).__name__}",
+                     f"_verify_metadata raises {type(e).__name__}: {str(e)[:160]}", {"kind": "verify", "meta": v})
+            continue
         out.case(("verify", common.sha(v)), None, bool(v))
         out.hit("verify:" + impl)
         if impl == "cannotVerify":
@@ -788,8 +878,11 @@ def replay(ctx: Ctx, case: dict):
 
         instrs = [from_dval(v) for v in case["instrs"]]
         meta = None if case["meta"] is None else {k: from_dval(v) for k, v in case["meta"]}
-        text = decl.dump(instrs, metadata=meta)
-        bm, back = decl.load_with_metadata(io.StringIO(text))
+        try:
+            text = decl.dump(instrs, metadata=meta)
+            bm, back = decl.load_with_metadata(io.StringIO(text))
+        except Exception as e:  # noqa: BLE001
+            return f"dump/load raises {type(e).__name__}: {str(e)[:200]}"
         if back != instrs or bm != (meta or {}):
             return f"load(dump(x)) != x: {back!r} vs {instrs!r}"[:400]
         return None
